@@ -6,7 +6,7 @@
    [H] is the 64-bit key hash: universally quantified, so every statement
    holds under hash collisions.  [cfg_valid c] is exactly what
    NewFailureCache accepts: 1 s <= initialTTL <= maxTTL <= 5 min. *)
-From Sdns Require Import Common.Base Common.GoList Gen.C13 C13.Model C13.Proofs_Base C13.Proofs_Backoff C13.Proofs_Cache C13.Proofs_Conc C13.Proofs_Gen C13.Proofs_Wire C13.Proofs_Walk C13.Proofs_Cohort C13.Proofs_Fanout.
+From Sdns Require Import Common.Base Common.GoList Gen.C13 C13.Model C13.Proofs_Base C13.Proofs_Backoff C13.Proofs_Cache C13.Proofs_Conc C13.Proofs_Gen C13.Proofs_Wire C13.Proofs_Walk C13.Proofs_Cohort C13.Proofs_Fanout C13.Proofs_Pick.
 Open Scope Z_scope.
 
 (* The backoff starts at the configured minimum, is non-decreasing, at most
@@ -316,6 +316,84 @@ Theorem zone_failure_published_only_after_every_server_failed : forall servers l
   forallb (fun s => negb (srv_usable s)) servers = true.
 Proof. exact fanout_publishes_only_when_every_server_failed. Qed.
 Print Assumptions zone_failure_published_only_after_every_server_failed.
+
+(* ... and each of them was HEARD: when the lookup ends in something that is published, every
+   server of the zone had been started and its result consumed — no verdict about a zone while a
+   server is unheard, however many lame verdicts have come in (seeded C13-5, C13-7). *)
+Theorem zone_failure_published_only_after_every_server_was_heard : forall servers level sched o,
+  fo_done (fo_run servers level sched) = Some o -> fo_published o = true ->
+  forall j, (j < length servers)%nat -> nth_error (fo_stat (fo_run servers level sched)) j = Some StConsumed.
+Proof. exact fanout_publishes_only_after_every_result. Qed.
+Print Assumptions zone_failure_published_only_after_every_server_was_heard.
+
+(* Where a fallback-timer tick falls relative to a result does not matter: on every reachable
+   running state, for every server whose result is outstanding, tick-then-result and
+   result-then-tick leave the same state, or — when the result ends the lookup — the same outcome.
+   This is why the lab driver's OBSERVED schedules (gated authorities: the order in which results
+   reach lookup is the driver's, the number of ticks is read off the count of started servers at
+   barriers) determine the model run without tick positions (Model.fo_observed, CaseLabSched). *)
+Theorem fanout_tick_position_is_irrelevant : forall servers level sched i,
+  let st := fo_run servers level sched in
+  fo_done st = None -> nth_error (fo_stat st) i = Some StPending ->
+  fo_step servers level (fo_step servers level st FoTimer) (FoResult i) =
+  fo_step servers level (fo_step servers level st (FoResult i)) FoTimer
+  \/ (exists o, fo_done (fo_step servers level st (FoResult i)) = Some o /\
+                fo_done (fo_step servers level (fo_step servers level st FoTimer) (FoResult i)) = Some o).
+Proof. exact reachable_timer_commutes_with_result. Qed.
+Print Assumptions fanout_tick_position_is_irrelevant.
+
+(* What check_case computes for an observed schedule is a run of the model: both universal
+   statements hold for it — a published failure means no server was usable and every one was heard. *)
+Theorem observed_schedule_publication_means_every_server_failed : forall servers level evs st o,
+  fo_observed servers level (fo_init (length servers)) evs = Some st -> fo_done st = Some o -> fo_published o = true ->
+  forallb (fun s => negb (srv_usable s)) servers = true /\
+  forall j, (j < length servers)%nat -> nth_error (fo_stat st) j = Some StConsumed.
+Proof. exact observed_publication_means_every_server_failed. Qed.
+Print Assumptions observed_schedule_publication_means_every_server_failed.
+
+(* "A useful answer resets the backoff", at the zone: the lookup's end clears the zone's failure
+   state (clearResolutionZoneFailure) only when a server of the zone gave a usable response — an
+   answer, or the NXDOMAIN some server answered with — and a lookup that clears publishes
+   nothing; for every schedule, zone depth and mix of servers. *)
+Theorem zone_failure_cleared_only_after_a_usable_response : forall servers level sched o,
+  fo_done (fo_run servers level sched) = Some o -> fo_cleared o = true ->
+  existsb srv_usable servers = true /\ fo_published o = false.
+Proof. exact fanout_clears_only_after_a_usable_response. Qed.
+Print Assumptions zone_failure_cleared_only_after_a_usable_response.
+
+(* Completeness, so that suppression can start at all: for a zone ALL of whose servers are lame
+   (a failure rcode other than NXDOMAIN, no reply, a connection error) the lookup, whenever and
+   under whatever schedule it ends, ends in something that is published as a zone failure. *)
+Theorem all_lame_zone_failure_is_published : forall servers level,
+  forallb srv_lame servers = true -> servers <> [] ->
+  forall sched o, fo_done (fo_run servers level sched) = Some o -> fo_published o = true.
+Proof. exact all_lame_zone_is_published. Qed.
+Print Assumptions all_lame_zone_failure_is_published.
+
+(* pickFallbackResponse's preference for a name error IS the translated Go loop
+   (Gen.C13.go_pickFallbackResponse_loop2, `for _, resp := range responseErrors { if resp.Rcode ==
+   dns.RcodeNameError { return resp, nil } }`): for every list of collected responses (rcodes
+   non-negative, as on the wire) the loop returns the first message with rcode 3 and a nil error
+   exactly when the model's pick_fallback answers FOResponse NXDOMAIN, and falls through exactly
+   when the model goes on to "the first response error, else the bogus delegation, else
+   connection failed".  Editing the loop in /repo re-checks this proof. *)
+Theorem fallback_nxdomain_scan_is_the_translated_go_loop : forall msgs cfg fatal,
+  Forall (fun m => 0 <= msg_rcode m) msgs ->
+  match fst (go_pickFallbackResponse_loop2_run msgs) with
+  | GoRet (m, err) =>
+      err = false /\ msg_rcode m = 3 /\ In m msgs /\
+      pick_fallback (map msg_rcode_N msgs) cfg fatal = FOResponse rcode_nxdomain
+  | GoNext =>
+      ~ In rcode_nxdomain (map msg_rcode_N msgs) /\
+      pick_fallback (map msg_rcode_N msgs) cfg fatal =
+        match map msg_rcode_N msgs with
+        | rc :: _ => FOResponse rc
+        | [] => if (0 <? cfg)%nat then FOConfig else if (0 <? fatal)%nat then FOConnFailed else FONoServers
+        end
+  | GoOof => False
+  end.
+Proof. exact pick_scan_is_model. Qed.
+Print Assumptions fallback_nxdomain_scan_is_the_translated_go_loop.
 
 Theorem fanout_answer_is_a_usable_response : forall servers level sched i,
   fo_done (fo_run servers level sched) = Some (FOAnswer i) ->
